@@ -278,6 +278,16 @@ structure FSLConfig where
   ext : Option Name
   rejectSymlinks : Bool
 
+/-- the constructors' check (`FileSystemLoader.__init__`, and `PackageLoader.__init__` as fixed):
+`if ext: Path("x").with_suffix(ext)` — a `ValueError` when `ext` is not a valid suffix -/
+def loaderInit (ext : Option Name) : Except Exc Unit :=
+  match ext with
+  | some (c :: cs) =>
+    match withSuffix ⟨0, [[120]]⟩ (c :: cs) with
+    | .ok _ => .ok ()
+    | .error e => .error e
+  | _ => .ok ()
+
 /-- `source_path.exists() and source_path.is_file()` inside `try … except OSError: continue`
 (`false` = the `continue`) -/
 def fslProbe (fs : FS) (src : PPath) : Except Exc Bool :=
